@@ -95,7 +95,8 @@ def runOp (s : Ev) (j : Json) : Except String (Ev × Json) := do
     let t ← jOptNat (fieldD j "timeout" Json.null)
     let reps ← jList (jList jNat) (← field j "reps")
     let drain ← jList jNat (fieldD j "drain" (Json.arr #[]))
-    let r := search s { maxEvals := n, strict := strict, timeout := t } reps drain
+    let delays ← jList jNat (fieldD j "delays" (Json.arr #[]))
+    let r := search { s with askDelays := delays } { maxEvals := n, strict := strict, timeout := t } reps drain
     return (r.1, opOut none (some (stopName r.2)) r.1)
   | _ => throw s!"unknown op {op}"
 
